@@ -111,6 +111,9 @@ def _do_mutant_locked(m, slot, d):
         status = "caught" if ok else ("compile-error" if broken and not flagged else "MISSED")
         if m.get("harmless"):
             status = "compile-error" if broken else ("FALSE-ALARM" if flagged else "silent")
+            # a redesign that removes what a rule is anchored on: the check is *expected* to fail closed (and with nothing else)
+            if status == "FALSE-ALARM" and m.get("fail_closed") and all(("coverage-lost" in k or "anchor-missing" in k) for k in keys):
+                status = "fail-closed"
         return {"name": m["name"], "status": status, "flagged": flagged, "keys": keys[:8],
                 "err": [res[p]["err"][-400:] for p in broken][:1]}
     finally:
@@ -129,9 +132,12 @@ def main():
     ms = []
     if a.refactors:
         rd = os.path.join(VERIF, "refactors")
+        fc = {}
+        if os.path.exists(os.path.join(rd, "EXPECTED_FAIL_CLOSED.json")):
+            fc = json.load(open(os.path.join(rd, "EXPECTED_FAIL_CLOSED.json")))
         for n in sorted(os.listdir(rd)):
             if n.endswith(".diff"):
-                ms.append({"name": "refactor:" + n[:-5], "patch": os.path.join(rd, n), "harmless": True})
+                ms.append({"name": "refactor:" + n[:-5], "patch": os.path.join(rd, n), "harmless": True, "fail_closed": n[:-5] in fc})
     elif a.seeds:
         sd = os.path.join(VERIF, "seeded")
         for n in sorted(os.listdir(sd)):
@@ -175,7 +181,7 @@ def main():
         for r in ex.map(guarded, list(enumerate(ms))):
             results.append(r)
             print("%-8s %-60s %s %s" % (r["status"], r["name"], r.get("flagged", ""), r.get("why", "")))
-            if r["status"] in ("MISSED", "compile-error", "FALSE-ALARM"):
+            if r["status"] in ("MISSED", "compile-error", "FALSE-ALARM", "fail-closed"):
                 for k in r.get("keys", []):
                     print("      ", k)
                 for e in r.get("err", []):
